@@ -225,3 +225,32 @@ func VH_C02_sparse() {
 	}
 	vobs("sparse", int(sparse), within, gotA, gotB)
 }
+
+// VH_C02_window_wiring: K2 over float64 coordinates for one point: with K1's contract in place of the two rounding
+// functions (Down(d) <= d <= Up(d), nothing else known about them), the real Set / geoSearch / rtree visit the point
+// whenever the exact predicate holds - i.e. the search WINDOW, like the stored boxes, is rounded outward.
+//verif:cfg use=k1contract solver=cvc5 timeout=120000 verdict=300000 maxwall=1700 b_objects=1_point b_coordinates=any_float64_in_K1_domain_within_[-180,180] b_query=rectangle
+func VH_C02_window_wiring() {
+	c := New()
+	co := func() float64 {
+		d := vnondetFloat64()
+		vassume(d >= -180 && d <= 180 && vhInF32Range(d))
+		return d
+	}
+	px, py := co(), co()
+	pt := object.New("p", geojson.NewSimplePoint(geometry.Point{X: px, Y: py}), 0, field.List{})
+	c.Set(pt)
+	a, b, cc, d := co(), co(), co(), co()
+	vassume(a <= cc && b <= d)
+	q := geojson.NewRect(geometry.Rect{Min: geometry.Point{X: a, Y: b}, Max: geometry.Point{X: cc, Y: d}})
+	got := 0
+	c.Intersects(q, 0, nil, nil, func(o *object.Object) bool {
+		if o == pt {
+			got++
+		}
+		return true
+	})
+	inside := px >= a && px <= cc && py >= b && py <= d
+	vassert("C02.K2.window_is_rounded_outward_too", vimplies(inside, got == 1))
+	vassert("C02.K2.window_never_invents", vimplies(got == 1, inside))
+}
